@@ -841,6 +841,64 @@ func writeTranslations(repo, outdir string, fset *token.FileSet, parse func(stri
 		emit("internal/rfmt/helpers.go", "", "EscapeBytes", "EscapeBytes", bconsts, bctypes)
 		methods = saved
 	}
+	// internal/rfmt/helpers.go, printer_adapter.go: the mode/override brackets and the SafeWriter methods of the printer
+	{
+		hf := parse("internal/rfmt/helpers.go")
+		pcints := map[string]int64{"b.UnsafeEscaped": int64(buffer.UnsafeEscaped), "b.SafeEscaped": int64(buffer.SafeEscaped),
+			"b.SafeRaw": int64(buffer.SafeRaw), "b.PreRedactable": int64(buffer.PreRedactable)}
+		// the override constants are unexported: read their iota order off the const block
+		for _, d := range hf.Decls {
+			if gd, ok := d.(*ast.GenDecl); ok && gd.Tok == token.CONST {
+				for i, sp := range gd.Specs {
+					vs := sp.(*ast.ValueSpec)
+					if len(vs.Names) == 1 && (i == 0) == (len(vs.Values) == 1) {
+						if i == 0 {
+							if id, ok := vs.Values[0].(*ast.Ident); !ok || id.Name != "iota" {
+								break
+							}
+							if tid, ok := vs.Type.(*ast.Ident); !ok || tid.Name != "overrideMode" {
+								break
+							}
+						}
+						pcints[vs.Names[0].Name] = int64(i)
+					}
+				}
+			}
+		}
+		for _, n := range []string{"noOverride", "overrideSafe", "overrideUnsafe"} {
+			if _, ok := pcints[n]; !ok {
+				allBad = append(allBad, "override constant "+n+" not found in helpers.go")
+			}
+		}
+		for _, n := range []string{"startUnsafe", "startPreRedactable", "startSafeOverride", "startUnsafeOverride"} {
+			fd := find(hf, "pp", n)
+			if fd == nil {
+				allBad = append(allBad, "missing pp."+n)
+				continue
+			}
+			txt, bad := translatePPStart(fset, fd, pcints)
+			fmt.Fprintf(&sb, "/-- translated from internal/rfmt/helpers.go: func (p *pp) %s -/\n%s\n", n, txt)
+			allBad = append(allBad, bad...)
+		}
+		if fd := find(hf, "restorer", "restore"); fd == nil {
+			allBad = append(allBad, "missing restorer.restore")
+		} else {
+			txt, bad := translatePPRestore(fset, fd, pcints)
+			fmt.Fprintf(&sb, "/-- translated from internal/rfmt/helpers.go: func (r restorer) restore -/\n%s\n", txt)
+			allBad = append(allBad, bad...)
+		}
+		af := parse("internal/rfmt/printer_adapter.go")
+		for _, n := range []string{"SafeString", "SafeRune", "SafeByte", "SafeBytes", "UnsafeString", "UnsafeByte", "UnsafeBytes", "UnsafeRune"} {
+			fd := find(af, "pp", n)
+			if fd == nil {
+				allBad = append(allBad, "missing pp."+n)
+				continue
+			}
+			txt, bad := translatePPMethod(fset, fd, pcints)
+			fmt.Fprintf(&sb, "/-- translated from internal/rfmt/printer_adapter.go: func (p *pp) %s -/\n%s\n", n, txt)
+			allBad = append(allBad, bad...)
+		}
+	}
 	// api.go: the public wrappers around the functions above
 	{
 		saved := methods
